@@ -10,6 +10,7 @@ import (
 
 type rtGen struct {
 	conflictFree bool // every trip/vehicle has at most one own entity, one descriptor per trip, functional associations
+	nearDup      bool // sometimes two trips of the pool differ in exactly one field of the identifier (absent vs zero-like value)
 	nyctTrips    bool // NYCT trip/stop-time extension data and NYCT-format ids
 	nyctAlerts   bool // Mercury extension data, elevator ids, lmm: prefixes
 	alertsOnly   bool
@@ -292,7 +293,12 @@ func (g *rtGen) selector(r *Rng, trips []map[string]any) map[string]any {
 		s["routeId"] = bstr(r.Pick([]string{"A", "M", "B1", ""}))
 	}
 	if r.P(1, 4) {
-		s["routeType"] = r.Pick3(1, 3, 99)
+		// every value around the known ones (0-7, 11, 12), the gap 8-10, and far values
+		if r.P(3, 4) {
+			s["routeType"] = r.Intn(15) - 1
+		} else {
+			s["routeType"] = []int{99, 100, 700, 1700, 2147483647, -2147483648}[r.Intn(6)]
+		}
 	}
 	if r.P(1, 4) {
 		s["directionId"] = r.Intn(2)
@@ -388,6 +394,47 @@ func (g *rtGen) message(r *Rng, named bool) map[string]any {
 	var trips []map[string]any
 	for i := 0; i < nTrips; i++ {
 		trips = append(trips, g.tripDesc(r, i, named))
+	}
+	if g.nearDup && nTrips >= 2 && r.P(1, 3) {
+		// trips[1] := trips[0] with one identifier field toggled between absent and a value whose parsed form is the
+		// zero of its type (or the smallest non-zero): two distinct identifiers that an imprecise comparison ties
+		d := deepCopyJSON(trips[0]).(map[string]any)
+		if _, ok := d["tripId"]; ok {
+			toggle := func(k string, v any) {
+				if _, has := d[k]; has {
+					delete(d, k)
+				} else {
+					d[k] = v
+				}
+			}
+			switch r.Intn(5) {
+			case 0:
+				delete(d, "startTime")
+				delete(trips[0], "startTime")
+				if r.Bool() {
+					d["startTime"] = bstr(r.Pick([]string{"00:00:00", "00:00:01"}))
+				} else {
+					trips[0]["startTime"] = bstr(r.Pick([]string{"00:00:00", "00:00:01"}))
+				}
+			case 1:
+				delete(d, "startDate")
+				delete(trips[0], "startDate")
+				d["startDate"] = bstr(r.Pick([]string{"19700101", "00010101", "20240102"}))
+			case 2:
+				delete(d, "directionId")
+				delete(trips[0], "directionId")
+				d["directionId"] = r.Intn(2)
+			case 3:
+				d["sr"] = 1 + r.Intn(3)
+				delete(trips[0], "sr")
+			default:
+				toggle("routeId", bstr("A"))
+				if gs(d, "routeId") == gs(trips[0], "routeId") {
+					d["routeId"] = bstr("ZZ")
+				}
+			}
+			trips[1] = d
+		}
 	}
 	vehs := []map[string]any{}
 	for _, i := range r.Perm(len(vehPool))[:nVeh] {
